@@ -7,7 +7,7 @@ from sa.engine.cfg import call_name
 from sa.engine.facts import Bad, F, atom
 from sa.engine.pattern import u, find_all, strip_cast
 from sa.engine.source import norm, own_walk, stmt_of, AnalysisError
-from .common import lexically_inside, enclosing, writer_table, dominates_all_exits, block_head
+from .common import lexically_inside, enclosing, writer_table, dominates_all_exits, block_head, validated_first
 
 EXPLANATION = ("Buffered byte streams: conservation of bytes by value flow - every removal from the buffer is a prefix removal paired, in the "
                "same suspension-free block, with a read of the same prefix that is what the call returns (difference of the two bounds exactly "
@@ -303,10 +303,7 @@ def check(ctx):
     # ---- R16-b bounds -------------------------------------------------------------------------------------------------------------------------
     rc = R["receive"]
     mb = rc.node.args.args[1].arg
-    first = [s_ for s_ in rc.node.body if not (isinstance(s_, ast.Expr) and isinstance(s_.value, ast.Constant)) and not isinstance(s_, ast.Pass)]
-    okf = bool(first) and isinstance(first[0], ast.If) and atom(first[0].test) == (f"{mb} < 1", True) and any(isinstance(x, ast.Raise) for x in first[0].body)
-    ctx.ob("R16-b", rc, "max_bytes < 1 is rejected before anything else", okf, node=first[0] if first else None,
-           detail="" if okf else "`if max_bytes < 1: raise ValueError` is no longer the first statement of receive()", by=(f"{mb} < 1 -> ValueError",))
+    validated_first(ctx, "R16-b", rc, f"{mb} < 1", "max_bytes < 1 is rejected before anything else")
     for n in own_walk(rc.node):
         bs = buf_slice(n) if isinstance(n, ast.expr) and isinstance(getattr(n, "ctx", None), ast.Load) else None
         if bs is not None and isinstance(n, ast.Subscript):
@@ -329,7 +326,7 @@ def check(ctx):
     for r in [x for x in own_walk(rc.node) if isinstance(x, ast.Return) and x.value is not None and isinstance(unwrap_bytes(x.value), ast.Name)]:
         nm = unwrap_bytes(r.value).id
         rsts = [e[0] for e in ctx.sites(rc, "$X = await self.receive_stream.receive($*A)") if isinstance(e[1]["X"], ast.Name) and e[1]["X"].id == nm]
-        if any(any(x is r for s_ in sibling_block(rs_) for x in ast.walk(s_)) for rs_ in rsts):
+        if any(r.lineno > rs_.lineno and any(x is r for s_ in sibling_block(rs_) for x in ast.walk(s_)) for rs_ in rsts):
             ctx.require_at("R16-b", rc, r, [[f"not {mb} < len({nm})"]], instance="a whole chunk is returned only if it fits max_bytes", what="return of a whole chunk")
     # closed check
     cl = ctx.sites(rc, "raise ClosedResourceError")
